@@ -32,15 +32,15 @@ Definition step (e : editor D SY) (o : op) : outcome (editor D SY) :=
   | OpCommit => fst_ok (ed_commit dops conv e)
   | OpClear => Ok (ed_clear sops e)
   | OpAck => Ok (ed_ack e)
-  | OpSetOptions o => Ok (ed_set_options sops e o)
+  | OpSetOptions o => ed_set_options_c dops sops e o
   | OpSetEngine k => Ok (ed_set_engine e k)
   | OpClearSyl => Ok (ed_clear_syllable_editor sops e)
   | OpJumpNext => fst_ok (ed_jump_next dops e)
   | OpJumpPrev => fst_ok (ed_jump_prev dops e)
   | OpJumpFirst => fst_ok (ed_jump_first dops e)
   | OpJumpLast => fst_ok (ed_jump_last dops e)
-  | OpLearn k t => fst_ok (ed_learn dops e k t)
-  | OpUnlearn k t => Ok (ed_unlearn dops e k t)
+  | OpLearn k t => fst_ok (ed_learn_c dops sops e k t)
+  | OpUnlearn k t => ed_unlearn_c dops sops e k t
   end.
 
 Fixpoint run (e : editor D SY) (ops : list op) : outcome (editor D SY) :=
